@@ -299,7 +299,7 @@ def compare(code, expected, result):
 
 TARGETS = [None, '"t"', '"my_app::net"', '"a,b;c d"', '"//host/x"', '" sp /* c */"', '"q\\"uote"']
 KV_SHAPES = ['k = 1', 'k = "v"', 'k = "a;b,c"', 'k = x', 'k', 'k:? = x', 'k:% = x', 'k:debug = x', 'k:display', 'k:err = e',
-             'k:sval = x', 'k:serde = x', 'k = "q\\"uote"', 'k = "path\\\\"']
+             'k:sval = x', 'k:serde = x', '_0 = 1', 'k = __', '__x1', 'k = _1', 'k = "q\\"uote"', 'k = "path\\\\"']
 MESSAGES = ['plain', '{} {}', '{name:?}', 'say \\"hi\\"', 'é名😀', 'mid [ref: 12] text', ' leading blank', '\\tleading escape',
             '//host/path', '/* x */ y', '', '{{x}}', 'ends \\\\']
 TRAILING = ['', ', x', ', x, y', ', a = 1', ', "lit"', ',']
